@@ -485,6 +485,14 @@ func (ev *tplEval) evalList(fc *fctx, e ast.Expr) (Sketch, bool) {
 	if call, ok := e.(*ast.CallExpr); ok {
 		if fn := calleeOf(info, call); fn != nil {
 			if fi := ev.w.Funcs[fn]; fi != nil {
+				// a map helper applied with a callback: the elements are what the callback returns
+				if _, fidx, ok := mapHelper(ev.w, fi); ok && fidx < len(call.Args) {
+					if lit, isLit := ast.Unparen(call.Args[fidx]).(*ast.FuncLit); isLit && len(lit.Body.List) == 1 {
+						if ret, isRet := lit.Body.List[0].(*ast.ReturnStmt); isRet && len(ret.Results) == 1 {
+							return ev.eval(fc, ret.Results[0]), true
+						}
+					}
+				}
 				return ev.listFromFunc(fi)
 			}
 			// library functions returning (a selection or rearrangement of) the elements of their first argument
@@ -575,7 +583,7 @@ func (ev *tplEval) evalList(fc *fctx, e ast.Expr) (Sketch, bool) {
 					}
 					if fn := calleeOf(info, call); fn != nil {
 						if fi := ev.w.Funcs[fn]; fi != nil {
-							if el, ok := ev.listFromFunc(fi); ok {
+							if el, ok := ev.evalList(fc, call); ok { // module function: its own list, or a map helper's callback
 								elems = append(elems, el)
 							}
 						} else if el, ok := ev.evalList(fc, call); ok {
